@@ -24,7 +24,7 @@ SIZES = {'a': 8, 'b': 12, 'x::y': 16, 'c': 20}
 def assume(a, ps, nmax):
     A = [a[0] == ps, z3.ULE(a[1], 1)] + [z3.ULE(a[i], 1) for i in (2, 3, 4, 5)] + [z3.ULE(a[6], nmax)]
     for i in range(4):
-        A.append(z3.ULE(a[7 + i], 7))
+        A.append(z3.ULE(a[7 + i], 8))
         A.append(z3.Implies(z3.ULE(a[6], i), a[7 + i] == 0))
     return A
 
@@ -84,9 +84,9 @@ def region_env(a, sl): return {}
 def describe(template, args):
     a = [int(x) for x in args]
     nm = 'u32' if a[1] else 'S'
-    U = {1: 'use b::%s;' % nm, 2: 'use x::y::%s;' % nm, 3: 'use b;', 4: 'use x::y;', 5: 'use c::%s;' % nm, 6: 'use c;', 7: 'use zz;'}
+    U = {1: 'use b::%s;' % nm, 2: 'use x::y::%s;' % nm, 3: 'use b;', 4: 'use x::y;', 5: 'use c::%s;' % nm, 6: 'use c;', 7: 'use zz;', 8: 'use b::%s2;' % nm}
     out = ['// pointer size %d; `%s` is an extern type of size 8/12/16/20 in a / b / x::y / c where declared' % (a[0], nm)]
     out.append('module a: ' + ' '.join(U.get(a[7 + i], '') for i in range(min(a[6], 4))) + (' extern type %s;' % nm if a[2] else '') + ' #[align(4)] pub type R { pub f: %s }' % nm)
     for flag, m in ((a[3], 'b'), (a[4], 'x::y'), (a[5], 'c')):
-        out.append('module %s: %s' % (m, 'extern type %s;' % nm if flag else '(empty)'))
+        out.append('module %s: %s%s' % (m, 'extern type %s;' % nm if flag else '(empty)', ' extern type %s2;' % nm if m == 'b' else ''))
     return '\n'.join(out)
